@@ -444,6 +444,52 @@ Section Requests.
     - apply wire_wf_small; [apply swf_enc_request|].
       unfold wf_request in H. apply andb_true_iff in H. destruct H as [H _]. apply N.leb_le in H. exact H.
   Qed.
+
+  (* the same with more bytes behind the frame: exactly the frame is consumed *)
+  Theorem server_receive_rest_wire r rest : wf_request r = true ->
+    server_receive_rest prim_ok strict true (wire r ++ rest) = Ok (msg_of_request r, rest).
+  Proof.
+    intros H. unfold server_receive_rest, wire.
+    rewrite read_packet_bytes_of.
+    - cbn [bind]. assert (basic_validation (enc_request r) = true) as ->.
+      { destruct r; cbn [enc_request]; apply env_basic. }
+      cbn [negb]. rewrite new_message_enc_request by exact H. reflexivity.
+    - apply wire_wf_small; [apply swf_enc_request|].
+      unfold wf_request in H. apply andb_true_iff in H. destruct H as [H _]. apply N.leb_le in H. exact H.
+  Qed.
+
+  (* requests pipelined on one connection: the read loop delivers each request of the
+     concatenated stream as if it had come alone, in order, up to and including the first
+     Unbind - whatever stands before or behind it *)
+  Fixpoint upto_unbind (rs : list request) : list request :=
+    match rs with
+    | [] => []
+    | RUnbind id :: _ => [RUnbind id]
+    | r :: rest => r :: upto_unbind rest
+    end.
+
+  Lemma wire_nonempty r : wire r <> [].
+  Proof.
+    unfold wire, bytes_of. intros E. apply app_eq_nil in E. destruct E as [E _].
+    unfold enc_ident in E. destruct (tag (p_id (enc_request r)) <? 31); discriminate.
+  Qed.
+
+  Theorem serve_stream_pipeline rs : Forall (fun r => wf_request r = true) rs ->
+    forall fuel, (length rs < fuel)%nat ->
+    serve_stream prim_ok strict true fuel (concat (map wire rs)) =
+    map (fun r => Ok (msg_of_request r)) (upto_unbind rs).
+  Proof.
+    induction 1 as [|r rs Hr Hrs IH]; intros fuel Hf.
+    - destruct fuel; reflexivity.
+    - destruct fuel as [|f]; [cbn in Hf; lia|].
+      cbn [map concat serve_stream].
+      destruct (wire r ++ concat (map wire rs)) as [|b bs] eqn:E.
+      { apply app_eq_nil in E. destruct E as [E _]. exfalso. exact (wire_nonempty r E). }
+      rewrite <- E. rewrite (server_receive_rest_wire r _ Hr).
+      assert (Hf' : (length rs < f)%nat) by (cbn in Hf; lia).
+      destruct r; cbn [upto_unbind map msg_of_request]; try (rewrite (IH f Hf'); reflexivity).
+      reflexivity.
+  Qed.
 End Requests.
 
 (* ---------------------------------------------------------------- *)
